@@ -580,6 +580,12 @@ def r01e(model, ctx):
     R = "R-01e"
     shape_fn = model.func(f"{AST_PY}::Operator.shape")
     funcs = {"Shape._unify": model.func(f"{AST_PY}::Shape._unify")}
+
+    def lookup(q):
+        try:
+            return model.func(f"{AST_PY}::{q}")
+        except AnalysisError:
+            return None
     uni, _ = interp.operator_universe(model)
     keys = sorted(set(uni) | {("+", 1)})
     n = 0
@@ -590,11 +596,11 @@ def r01e(model, ctx):
             a, b = MP.sym("a"), MP.sym("b")
             ops = [ShapeV(a, signs[0])] + ([ShapeV(b, signs[1])] if arity == 2 else [])
             lower = {"a": 1 if signs[0] else 0, "b": (1 if signs[1] else 0) if arity == 2 else 0, "2**b": 1}
-            ev = ShapeEval(funcs)
+            ev = ShapeEval(dict(funcs), lookup=lookup, self_class="Operator")
             where = f"{AST_PY}:{shape_fn.lineno}"
             cons = f"Operator.shape:{sym}/{arity}:{''.join('s' if x else 'u' for x in signs)}"
             try:
-                got = ev.call(shape_fn, [], selfobj={"operator": sym, "operands": ops}, preset={"op_shapes": ops})
+                got = ev.call(shape_fn, [], selfobj={"operator": sym, "operands": ops, "_operator": sym, "_operands": ops})
             except _Raise:
                 if (sym, arity) == ("+", 1):
                     continue
